@@ -18,6 +18,7 @@ import itertools
 import json
 import os
 import re
+import time
 
 import common
 import explore as X
@@ -50,7 +51,7 @@ def classify_error(msg):
         return "RMultiWrite"
     if "used in multiple contexts" in msg:
         return "RMultiUse"
-    if "variables cannot be used in concurrent contexts" in msg:
+    if "variables cannot be used in" in msg:
         return "RVarInConc"
     if "variable assignment only possible in sequential contexts" in msg:
         return "RVarAssign"
@@ -316,6 +317,9 @@ def corpus():
     for pl in CTX_PLACES:                                                              # temporaries from outside
         c.append(P(("tmp", [(pl, "R", "whole")])))
     c.append(P(("tmp", [("B0", "R", "e1"), ("B2", "R", "e3")])))
+    for other in ("B2", "K1", "A0", "I"):                                             # push conflicts
+        c.append(P(("sig", [("B0", "P", "whole"), (other, "W", "whole" if other == "I" else "e1")])))
+    c.append(P(("sig", [("B0", "P", "s32"), ("B0", "W", "e1"), ("K1", "R", "whole")])))
     # several objects
     c.append(P(("sig", [("B0", "W", "whole"), ("K1", "R", "whole")]), ("pout", [("K1", "W", "whole")]),
                ("var", [("B0", "W", "whole"), ("B0", "R", "dyn")])))
@@ -506,7 +510,10 @@ def evaluate(ck, placements, tag):
         src, term = build(p)
         designs.append({"name": "%s_%05d" % (tag, i), "source": src, "entity": "E"})
         terms.append(term)
+    t0 = time.time()
     res = X.compile_designs(ck, designs)
+    ck.cov["compile_s"] = round(ck.cov.get("compile_s", 0) + time.time() - t0, 1)
+    t0 = time.time()
     accepted = []
     reasons = []
     for p, dsg, r in zip(placements, designs, res):
@@ -555,7 +562,7 @@ def evaluate(ck, placements, tag):
             ck.obligation(False)
             if v is not None:
                 lines = [l.strip() for l in vhdl.split("\n") if re.search(r"\b%s\b" % re.escape(v), l)]
-                report(ck, {"placement": "variable-in-always-expression"},
+                report(ck, {"placement": "variable-outside-process"},
                              "accepted design: process variable '%s' is referenced by a concurrent statement outside its "
                              "process (the always-expression); the emitted architecture is not legal VHDL" % v,
                              {"placement_json": placements[i], "source": designs[i]["source"], "emitted_lines": lines,
@@ -567,7 +574,12 @@ def evaluate(ck, placements, tag):
     if dterms:
         b = common.coq_bad_indices(ck, tag + "_drv", PREAMBLE, "Syntax.design", dterms, "single_driver", shard=200)
         bad_drv = {dix[j] for j in b}
+        # applicability of C07_single_driver_sound_partial (different statements assign different signals)
+        b2 = common.coq_bad_indices(ck, tag + "_drvroots", PREAMBLE, "Syntax.design", dterms, "single_driver_roots", shard=200)
+        ck.count("single_driver_roots_true", len(dterms) - len(b2))
+        ck.count("single_driver_roots_false_but_scalars_disjoint", len([j for j in b2 if dix[j] not in bad_drv]))
 
+    ck.cov["coq_and_parse_s"] = round(ck.cov.get("coq_and_parse_s", 0) + time.time() - t0, 1)
     # ---- verdicts ---------------------------------------------------------------------------
     for i, p in enumerate(placements):
         conflicts, local = py_spec(p)
@@ -668,8 +680,10 @@ def run(ck: common.Check, replay=None):
         if k not in seen:
             seen.add(k)
             todo.append(p)
-    if ck.tier == "quick":
-        target = len(todo) + 300
+    if os.environ.get("C07_ONLY_CORPUS"):
+        ck.cov["only_corpus"] = True   # mutation self-test shortcut: the regression corpus alone
+    elif ck.tier == "quick":
+        target = max(300, len(todo) + 200)
         guard = 0
         while len(todo) < target and guard < 100000:
             guard += 1
@@ -692,7 +706,7 @@ def run(ck: common.Check, replay=None):
             if k not in seen:
                 seen.add(k)
                 todo.append(p)
-        n_rand = 1500
+        n_rand = 1000
         guard = 0
         target = len(todo) + n_rand
         while len(todo) < target and guard < 1000000:
@@ -707,6 +721,8 @@ def run(ck: common.Check, replay=None):
             todo.append(p)
         ck.cov["exhaustive"] = True
     ck.cov["placements"] = len(todo)
+    for k0 in ("over_rejected", "accepted", "rejected", "single_driver_true"):
+        ck.cov.setdefault(k0, 0)
     chunk = 2500
     for ci in range(0, len(todo), chunk):
         evaluate(ck, todo[ci:ci + chunk], "p%02d" % (ci // chunk))
